@@ -3,7 +3,7 @@ from vp.kani import Ob
 META = {
     "functions_encoded": ["rlib_gcd::{gcd,lcm,egcd,crt}", "rlib_num_traits::Integer::{abs,into_abs} at i8,u8,i16,u16,i32,u32,i64,u64"],
     "bounds": {"quick": "gcd: |a|,|b|<=31 at i8,i16,i32; lcm at i8..i64; a,b<=31 at u8..u64; egcd |a|,|b|,|c|<=15 (i16,i32); crt 1<=m1,m2<=12, reduced residues (i32,i64)",
-               "thorough": "adds gcd/egcd at i64, gcd over all of i8 except MIN and all of u8, |a|,|b|<=255 at i32/i64, egcd<=31, crt moduli<=24"},
+               "thorough": "adds gcd/egcd at i64, gcd over all of i8 except MIN and all of u8, |a|,|b|<=255 at i32, egcd<=31 (i64), crt moduli<=24"},
     "outside_claim": ["magnitudes up to 2^20 over i64 (one 64-bit symbolic division per Euclid step)", "a=b=0 in egcd/lcm (division by zero, excluded by the property)", "i128/isize instantiations"],
     "stubs_and_assumes": ["'greatest' is shown through a Bezout pair returned by the real egcd and re-checked by multiplication in a wider type"],
     "assumptions": ["Kani/CBMC translation of MIR is faithful", "uniqueness of the CRT solution in [0,lcm) is the CRT itself (mathematics)"],
@@ -30,6 +30,6 @@ def obligations(tier, seed):
         add("c11_crt_" + t, covers=2, desc="crt: Some(t) => 0<=t<lcm and both congruences; None <=> incompatible", bounds="m1,m2<=12, " + t)
     add("c11_twin_false", expect="fail", desc="deliberately false twin")
     if tier == "thorough":
-        for h in ("c11_gcd_i8_full", "c11_gcd_u8_full", "c11_gcd_i64_255", "c11_gcd_i32_255", "c11_egcd_i64_31", "c11_crt_i64_24"):
+        for h in ("c11_gcd_i8_full", "c11_gcd_u8_full", "c11_gcd_i32_255", "c11_egcd_i64_31", "c11_crt_i64_24"):  # gcd at i64 with |.|<=255: no verdict in 3000 s, dropped
             add(h, desc="deeper bound", bounds=h, timeout=3000)
     return obs
